@@ -18,7 +18,7 @@ def Stream.Idle (s : Stream γ) : Prop := s.disp.rcs = 0 ∧ s.disp.emissionEnab
 
 /-- observers that also add nothing at document end / bail-out -/
 structure ObservingAll (ctl : Controller γ) : Prop extends Observing ctl where
-  handleEnd_empty : ∀ g cs, (ctl.handleEnd g).2 = .ok cs → cs.flatten = []
+  handleEnd_empty : ∀ g, (ctl.handleEnd g).2.1.flatten = []
 
 theorem Buf.append_data (b : Buf) (s : Bytes) (h : (b.append s).2 = true) : (b.append s).1.data = b.data ++ s := by
   simp only [Buf.append] at *
@@ -51,7 +51,7 @@ variable {w : World γ}
 theorem flushRemaining_spec {pre inp : Bytes} {d d' : Disp γ} {consumed : Nat} (h : DInv pre inp d)
     (hf : d.flushRemaining inp consumed = .ok d') :
     sinkBytes d'.sink = pre ++ inp.take consumed ∧ consumed ≤ inp.length ∧ d'.rcs = 0 ∧
-    d'.emissionEnabled = true ∧ d'.bailOutRuns = d.bailOutRuns := by
+    d'.emissionEnabled = true := by
   obtain ⟨a, b, c⟩ := h
   unfold Disp.flushRemaining at hf
   rw [if_pos c] at hf
@@ -62,7 +62,7 @@ theorem flushRemaining_spec {pre inp : Bytes} {d d' : Disp γ} {consumed : Nat} 
     simp only at h1 h2
     simp only [Except.ok.injEq] at hf
     subst hf
-    refine ⟨?_, h2, rfl, ?_, ?_⟩
+    refine ⟨?_, h2, rfl, ?_⟩
     · split
       · rename_i he
         have : out = [] := by cases out <;> simp_all
@@ -71,17 +71,15 @@ theorem flushRemaining_spec {pre inp : Bytes} {d d' : Disp γ} {consumed : Nat} 
       · simp only [Disp.push, sinkBytes_append, sinkBytes_chunk, a, h3, List.append_assoc]
         rw [take_append_slice _ _ _ h1]
     · split <;> simpa [Disp.push] using c
-    · split <;> simp [Disp.push]
 
 theorem flushForBailOut_spec {pre inp : Bytes} {d : Disp γ} (h : sinkBytes d.sink = pre) (hr : d.rcs ≤ inp.length) :
-    ∃ d', d.flushForBailOut inp = .ok d' ∧ sinkBytes d'.sink = pre ++ inp.drop d.rcs ∧ d'.rcs = 0 ∧
-      d'.bailOutRuns = d.bailOutRuns := by
+    ∃ d', d.flushForBailOut inp = .ok d' ∧ sinkBytes d'.sink = pre ++ inp.drop d.rcs ∧ d'.rcs = 0 := by
   unfold Disp.flushForBailOut
   have hs : checkedSlice inp ⟨d.rcs, inp.length⟩ = some (inp.drop d.rcs) := by
     unfold checkedSlice
     simp [hr, slice]
   rw [hs]
-  refine ⟨_, rfl, ?_, rfl, ?_⟩
+  refine ⟨_, rfl, ?_, rfl⟩
   · split
     · rename_i he
       have : inp.drop d.rcs = [] := by
@@ -90,7 +88,6 @@ theorem flushForBailOut_spec {pre inp : Bytes} {d : Disp γ} (h : sinkBytes d.si
         | cons x xs => simp [hh] at he
       simp [h, this]
     · simp [Disp.push, h]
-  · split <;> simp [Disp.push]
 
 end
 end LolHtml.Model
@@ -178,7 +175,7 @@ theorem Stream.write_ok (hobs : Observing w.ctl) (s : Stream γ) (data : Bytes) 
       | error e => simp [hfl] at h
       | ok d =>
         simp only [hfl] at h ⊢
-        obtain ⟨f1, f2, f3, f4, _⟩ := flushRemaining_spec (d := Stream.disp { s1 with parser := (s1.parser.parse w.env chunk false).1 }) hD hfl
+        obtain ⟨f1, f2, f3, f4⟩ := flushRemaining_spec (d := Stream.disp { s1 with parser := (s1.parser.parse w.env chunk false).1 }) hD hfl
         have hk := Stream.keepTail_ok (w := w) (s := Stream.setDisp { s1 with parser := (s1.parser.parse w.env chunk false).1 } d)
           (data := data) (chunk := chunk) (consumed := consumed) f2
           (by intro hb; exact c5 (by simpa [Stream.setDisp, c3] using hb))
@@ -217,14 +214,351 @@ theorem Stream.end_ok (hobs : ObservingAll w.ctl) (s : Stream γ) (hi : s.Idle) 
     cases hfl : Disp.flushRemaining (Stream.disp { s with parser := (s.parser.parse w.env chunk true).1 }) chunk chunk.length with
     | error e => simp [hfl, DRes.ofExcept, DRes.bind] at h
     | ok d =>
-      obtain ⟨f1, _, _, _, _⟩ := flushRemaining_spec (d := Stream.disp { s with parser := (s.parser.parse w.env chunk true).1 }) hD hfl
+      obtain ⟨f1, _, _, _⟩ := flushRemaining_spec (d := Stream.disp { s with parser := (s.parser.parse w.env chunk true).1 }) hD hfl
       simp only [hfl, DRes.ofExcept, DRes.bind] at h ⊢
-      cases he : (w.ctl.handleEnd d.ctl).2 with
-      | error e => simp [he] at h
-      | ok cs =>
-        have := hobs.handleEnd_empty _ _ he
+      have := hobs.handleEnd_empty d.ctl
+      cases he : (w.ctl.handleEnd d.ctl).2.2 with
+      | some e => simp [he] at h
+      | none =>
         simp only [he]
         simp only [sinkBytes_append, sinkBytes_chunks, sinkBytes_chunk, this, List.append_nil, f1, List.take_length, hp]
         rfl
+
+end LolHtml.Model
+
+namespace LolHtml.Model
+variable {γ : Type} {w : World γ}
+
+theorem Stream.bail_off (s : Stream γ) (e : Err) (slices : List Bytes) (h : s.shouldBailOutFor e = false) :
+    s.bail w e slices = s := by
+  unfold Stream.bail; simp [h]
+
+theorem runBailOut_spec (d : Disp γ) (e : Err) :
+    ∃ bo, sinkBytes (d.runBailOut w.ctl e).sink = sinkBytes d.sink ++ bo ∧ (d.runBailOut w.ctl e).rcs = d.rcs := by
+  refine ⟨(w.ctl.bailOut d.ctl e).2.flatten, ?_, rfl⟩
+  simp [Disp.runBailOut]
+
+/-- graceful bail-out with one slice to flush -/
+theorem Stream.bail_one (s : Stream γ) (e : Err) (chunk pre : Bytes) (h : sinkBytes s.disp.sink = pre)
+    (hr : s.disp.rcs ≤ chunk.length) (hb : s.shouldBailOutFor e = true) :
+    ∃ bo, (s.bail w e [chunk]).emitted = pre ++ bo ++ chunk.drop s.disp.rcs ∧
+      (s.bail w e [chunk]).bailOutRuns = s.bailOutRuns + 1 := by
+  obtain ⟨bo, hbo, hrcs⟩ := runBailOut_spec (w := w) s.disp e
+  obtain ⟨d', hd', hs', _⟩ := flushForBailOut_spec (inp := chunk) (d := s.disp.runBailOut w.ctl e) (pre := pre ++ bo)
+    (by rw [hbo, h]) (by rw [hrcs]; exact hr)
+  refine ⟨bo, ?_, ?_⟩
+  · simp only [Stream.disp] at hd' hs' hrcs
+    simp only [Stream.bail, hb, if_true, List.foldl_cons, List.foldl_nil, Stream.emitted, Stream.disp, Stream.setDisp, hd']
+    rw [hs', hrcs]
+  · simp [Stream.bail, hb]
+
+/-- graceful bail-out with two slices (buffered tail, then the rejected new data), from an idle stream -/
+theorem Stream.bail_two (s : Stream γ) (e : Err) (a b pre : Bytes) (h : sinkBytes s.disp.sink = pre)
+    (hr : s.disp.rcs = 0) (hb : s.shouldBailOutFor e = true) :
+    ∃ bo, (s.bail w e [a, b]).emitted = pre ++ bo ++ a ++ b ∧
+      (s.bail w e [a, b]).bailOutRuns = s.bailOutRuns + 1 := by
+  obtain ⟨bo, hbo, hrcs⟩ := runBailOut_spec (w := w) s.disp e
+  obtain ⟨d1, hd1, hs1, hr1⟩ := flushForBailOut_spec (inp := a) (d := s.disp.runBailOut w.ctl e) (pre := pre ++ bo)
+    (by rw [hbo, h]) (by rw [hrcs, hr]; omega)
+  obtain ⟨d2, hd2, hs2, _⟩ := flushForBailOut_spec (inp := b) (d := d1) (pre := pre ++ bo ++ a)
+    (by rw [hs1, hrcs, hr]; simp) (by rw [hr1]; omega)
+  refine ⟨bo, ?_, ?_⟩
+  · simp only [Stream.disp] at hd1 hd2
+    simp only [Stream.bail, hb, if_true, List.foldl_cons, List.foldl_nil, Stream.emitted, Stream.disp, Stream.setDisp, hd1, hd2]
+    rw [hs2, hr1]; simp
+  · simp [Stream.bail, hb]
+
+end LolHtml.Model
+
+namespace LolHtml.Model
+variable {γ : Type} {w : World γ}
+
+theorem Stream.chunkFor_inl {s s' : Stream γ} {data : Bytes} (h : s.chunkFor w data = .inl s') :
+    s.hasBuffered = true ∧ s' = ({ s with buf := (s.buf.append data).1 }).bail w .mem [s.buf.data, data] := by
+  unfold Stream.chunkFor at h
+  by_cases hb : s.hasBuffered = true
+  · rw [if_pos hb] at h
+    by_cases ha : (s.buf.append data).2 = true
+    · simp [ha] at h
+    · dsimp only at h
+      rw [if_neg ha] at h
+      simp only [Sum.inl.injEq] at h
+      exact ⟨hb, h.symm⟩
+  · simp [hb] at h
+
+/-- What a failing call leaves in the sink (`inp` = everything received and not emitted before the
+call, plus the new data): the emitted prefix `inp.take k`; with the matching graceful flag on,
+followed by the bail-out handlers' output `bo` and every remaining byte `inp.drop k`. -/
+def FailOutcome (s s' : Stream γ) (inp : Bytes) (e : Err) : Prop :=
+  ∃ k bo, k ≤ inp.length ∧
+    (if s.shouldBailOutFor e = true then
+      s'.emitted = s.emitted ++ inp.take k ++ bo ++ inp.drop k ∧ s'.bailOutRuns = s.bailOutRuns + 1
+     else s'.emitted = s.emitted ++ inp.take k ∧ s'.bailOutRuns = s.bailOutRuns)
+
+/-- failure while keeping the unconsumed tail: only the memory limit of `init_with` -/
+theorem Stream.keepTail_err {s : Stream γ} {data chunk : Bytes} {consumed : Nat} (hc : consumed ≤ chunk.length)
+    (hbuf : s.hasBuffered = true → s.buf.data = chunk) (hnb : s.hasBuffered = false → data = chunk)
+    (hrcs : s.disp.rcs = 0) (e : Err) (h : (s.keepTail w data chunk consumed).2 = .error e) :
+    e = .mem ∧
+    (if s.shouldBailOutFor .mem = true then
+      ∃ bo, (s.keepTail w data chunk consumed).1.emitted = s.emitted ++ bo ++ chunk.drop consumed ∧
+        (s.keepTail w data chunk consumed).1.bailOutRuns = s.bailOutRuns + 1
+     else (s.keepTail w data chunk consumed).1.emitted = s.emitted ∧
+        (s.keepTail w data chunk consumed).1.bailOutRuns = s.bailOutRuns) := by
+  unfold Stream.keepTail at h ⊢
+  by_cases hlt : consumed < chunk.length
+  · rw [if_pos hlt] at h ⊢
+    by_cases hb : s.hasBuffered = true
+    · rw [if_pos hb] at h
+      have : s.buf.shift consumed = some { s.buf with data := s.buf.data.drop consumed } := by
+        unfold Buf.shift; rw [hbuf hb]; simp [hc]
+      rw [this] at h
+      simp at h
+    · rw [if_neg hb] at h ⊢
+      have hb' : s.hasBuffered = false := by simpa using hb
+      dsimp only at h ⊢
+      by_cases hiw : (s.buf.initWith (data.drop consumed)).2 = true
+      · rw [if_pos hiw] at h; simp at h
+      · rw [if_neg hiw] at h ⊢
+        simp only [Except.error.injEq] at h
+        refine ⟨h.symm, ?_⟩
+        by_cases hbail : s.shouldBailOutFor .mem = true
+        · rw [if_pos hbail]
+          obtain ⟨bo, h1, h2⟩ := Stream.bail_one (w := w) { s with buf := (s.buf.initWith (data.drop consumed)).1 }
+            .mem (data.drop consumed) s.emitted rfl (by simp [Stream.disp] at hrcs ⊢; omega)
+            (by simpa [Stream.shouldBailOutFor] using hbail)
+          refine ⟨bo, ?_, h2⟩
+          rw [h1, hnb hb']
+          simp only [Stream.disp] at hrcs ⊢
+          rw [hrcs]; simp
+        · rw [if_neg hbail]
+          have hoff : s.shouldBailOutFor .mem = false := by simpa using hbail
+          rw [Stream.bail_off _ _ _ (by simpa [Stream.shouldBailOutFor] using hoff)]
+          exact ⟨rfl, rfl⟩
+  · rw [if_neg hlt] at h; simp at h
+
+/-- **A failing `write`.** -/
+theorem Stream.write_err (hobs : Observing w.ctl) (s : Stream γ) (data : Bytes) (hi : s.Idle) (e : Err)
+    (h : (s.write w data).2 = .error e) : FailOutcome s (s.write w data).1 (s.pending ++ data) e := by
+  unfold Stream.write at *
+  cases hcf : s.chunkFor w data with
+  | inl s' =>
+    simp only [hcf, Except.error.injEq] at h ⊢
+    subst h
+    obtain ⟨hb, hs'⟩ := Stream.chunkFor_inl hcf
+    subst hs'
+    refine ⟨0, ?_⟩
+    by_cases hbail : s.shouldBailOutFor .mem = true
+    · obtain ⟨bo, h1, h2⟩ := Stream.bail_two (w := w) ({ s with buf := (s.buf.append data).1 }) .mem s.buf.data data
+        s.emitted rfl hi.1 hbail
+      refine ⟨bo, Nat.zero_le _, ?_⟩
+      simp only [hbail, if_true]
+      refine ⟨?_, h2⟩
+      rw [h1]; simp [Stream.pending, hb, List.append_assoc]
+    · have hoff : s.shouldBailOutFor .mem = false := by simpa using hbail
+      refine ⟨[], Nat.zero_le _, ?_⟩
+      simp only [hoff, Bool.false_eq_true, if_false]
+      rw [Stream.bail_off { s with buf := (s.buf.append data).1 } _ _ (by simpa [Stream.shouldBailOutFor] using hoff)]
+      simp [Stream.emitted, Stream.disp]
+  | inr sc =>
+    obtain ⟨s1, chunk⟩ := sc
+    obtain ⟨c1, c2, c3, c4, c5⟩ := Stream.chunkFor_inr hcf
+    simp only [hcf] at h ⊢
+    have hidle1 : s1.Idle := by simpa [Stream.Idle, Stream.disp, c2] using hi
+    have hem : s1.emitted = s.emitted := by simp [Stream.emitted, Stream.disp, c2]
+    have hsb : ∀ e, s1.shouldBailOutFor e = s.shouldBailOutFor e := by
+      intro e; simp [Stream.shouldBailOutFor, c4]
+    have hD := Stream.parse_DInv hobs s1 chunk false hidle1
+    rw [← c1]
+    have hruns : s1.bailOutRuns = s.bailOutRuns := by
+      unfold Stream.chunkFor at hcf
+      by_cases hb : s.hasBuffered = true
+      · rw [if_pos hb] at hcf
+        by_cases ha : (s.buf.append data).2 = true
+        · dsimp only at hcf
+          rw [if_pos ha] at hcf
+          simp only [Sum.inr.injEq, Prod.mk.injEq] at hcf
+          rw [← hcf.1]
+        · simp [ha] at hcf
+      · rw [if_neg hb] at hcf
+        simp only [Sum.inr.injEq, Prod.mk.injEq] at hcf
+        rw [← hcf.1]
+    cases hpr : (s1.parser.parse w.env chunk false).2 with
+    | error e' =>
+      simp only [hpr, Except.error.injEq] at h ⊢
+      subst h
+      obtain ⟨a, b, c⟩ := hD
+      refine ⟨(s1.parser.parse w.env chunk false).1.x.sink.rcs, ?_⟩
+      by_cases hbail : s.shouldBailOutFor e' = true
+      · obtain ⟨bo, h1, h2⟩ := Stream.bail_one (w := w) { s1 with parser := (s1.parser.parse w.env chunk false).1 } e' chunk
+          (s1.emitted ++ chunk.take (s1.parser.parse w.env chunk false).1.x.sink.rcs) (by simpa [Stream.disp] using a)
+          (by simpa [Stream.disp] using b) (by simpa [Stream.shouldBailOutFor, c4] using (hsb e').trans hbail)
+        refine ⟨bo, b, ?_⟩
+        simp only [hbail, if_true]
+        refine ⟨?_, by rw [h2, hruns]⟩
+        rw [h1, hem]; simp [Stream.disp]
+      · have hoff : s.shouldBailOutFor e' = false := by simpa using hbail
+        refine ⟨[], b, ?_⟩
+        simp only [hoff, Bool.false_eq_true, if_false]
+        rw [Stream.bail_off { s1 with parser := (s1.parser.parse w.env chunk false).1 } _ _
+          (by simpa [Stream.shouldBailOutFor, c4] using (hsb e').trans hoff)]
+        refine ⟨?_, hruns⟩
+        rw [← hem]
+        simpa [Stream.emitted, Stream.disp] using a
+    | ok consumed =>
+      simp only [hpr] at h ⊢
+      cases hfl : Disp.flushRemaining (Stream.disp { s1 with parser := (s1.parser.parse w.env chunk false).1 }) chunk consumed with
+      | error e' =>
+        simp only [hfl, Except.error.injEq] at h ⊢
+        subst h
+        -- flush_remaining_input fails only on an out-of-range slice: a panic-class error, never recovered
+        obtain ⟨a, b, c⟩ := hD
+        have hpanic : ∃ m, e' = .panic m := by
+          unfold Disp.flushRemaining at hfl
+          simp only [Stream.disp, c, if_true] at hfl
+          split at hfl
+          · simp only [Except.error.injEq] at hfl; exact ⟨_, hfl.symm⟩
+          · simp at hfl
+        obtain ⟨m, rfl⟩ := hpanic
+        refine ⟨(s1.parser.parse w.env chunk false).1.x.sink.rcs, [], b, ?_⟩
+        simp only [Stream.shouldBailOutFor, Settings.recovers, Bool.false_eq_true, if_false]
+        refine ⟨?_, hruns⟩
+        rw [← hem]
+        simpa [Stream.emitted, Stream.disp] using a
+      | ok d =>
+        simp only [hfl] at h ⊢
+        obtain ⟨f1, f2, f3, f4⟩ := flushRemaining_spec (d := Stream.disp { s1 with parser := (s1.parser.parse w.env chunk false).1 }) hD hfl
+        obtain ⟨k1, k2⟩ := Stream.keepTail_err (w := w)
+          (s := Stream.setDisp { s1 with parser := (s1.parser.parse w.env chunk false).1 } d)
+          (data := data) (chunk := chunk) (consumed := consumed) f2
+          (by intro hb; exact c5 (by simpa [Stream.setDisp, c3] using hb))
+          (by intro hb
+              have : s.hasBuffered = false := by simpa [Stream.setDisp, c3] using hb
+              rw [c1]; simp [Stream.pending, this])
+          (by simpa [setDisp_disp] using f3) e h
+        subst k1
+        have hsb2 : (Stream.setDisp { s1 with parser := (s1.parser.parse w.env chunk false).1 } d).shouldBailOutFor .mem
+            = s.shouldBailOutFor .mem := by
+          simpa [Stream.shouldBailOutFor, Stream.setDisp, c4] using hsb .mem
+        have hem2 : (Stream.setDisp { s1 with parser := (s1.parser.parse w.env chunk false).1 } d).emitted
+            = s.emitted ++ chunk.take consumed := by
+          simp only [Stream.emitted, setDisp_disp, f1]
+          simp only [Stream.emitted] at hem
+          rw [hem]
+        rw [hsb2] at k2
+        refine ⟨consumed, ?_⟩
+        by_cases hbail : s.shouldBailOutFor .mem = true
+        · rw [if_pos hbail] at k2
+          obtain ⟨bo, k3, k4⟩ := k2
+          refine ⟨bo, f2, ?_⟩
+          rw [if_pos hbail]
+          exact ⟨by rw [k3, hem2], by rw [k4]; simpa [Stream.setDisp] using hruns⟩
+        · rw [if_neg hbail] at k2
+          refine ⟨[], f2, ?_⟩
+          rw [if_neg hbail]
+          exact ⟨by rw [k2.1, hem2], by rw [k2.2]; simpa [Stream.setDisp] using hruns⟩
+
+end LolHtml.Model
+
+namespace LolHtml.Model
+variable {γ : Type} {w : World γ}
+
+/-- **A failing `end`**: either the parser failed (then as for `write`), or an end handler failed —
+after every received byte had already been emitted; the bail-out handlers are not run then. -/
+theorem Stream.end_err (hobs : ObservingAll w.ctl) (s : Stream γ) (hi : s.Idle) (e : Err)
+    (h : (s.end w).2 = .error e) :
+    FailOutcome s (s.end w).1 s.pending e ∨
+    ((s.end w).1.emitted = s.emitted ++ s.pending ∧ (s.end w).1.bailOutRuns = s.bailOutRuns) := by
+  unfold Stream.end at *
+  have hD := Stream.parse_DInv hobs.toObserving s (if s.hasBuffered = true then s.buf.data else []) true hi
+  generalize hchunk : (if s.hasBuffered = true then s.buf.data else []) = chunk at *
+  have hp : s.pending = chunk := by simp [Stream.pending, hchunk]
+  rw [hp]
+  cases hpr : (s.parser.parse w.env chunk true).2 with
+  | error e' =>
+    left
+    simp only [hpr, Except.error.injEq] at h ⊢
+    subst h
+    obtain ⟨a, b, c⟩ := hD
+    refine ⟨(s.parser.parse w.env chunk true).1.x.sink.rcs, ?_⟩
+    by_cases hbail : s.shouldBailOutFor e' = true
+    · obtain ⟨bo, h1, h2⟩ := Stream.bail_one (w := w) { s with parser := (s.parser.parse w.env chunk true).1 } e' chunk
+        (s.emitted ++ chunk.take (s.parser.parse w.env chunk true).1.x.sink.rcs) (by simpa [Stream.disp] using a)
+        (by simpa [Stream.disp] using b) (by simpa [Stream.shouldBailOutFor] using hbail)
+      refine ⟨bo, b, ?_⟩
+      simp only [hbail, if_true]
+      exact ⟨by rw [h1]; simp [Stream.disp], h2⟩
+    · have hoff : s.shouldBailOutFor e' = false := by simpa using hbail
+      refine ⟨[], b, ?_⟩
+      simp only [hoff, Bool.false_eq_true, if_false]
+      rw [Stream.bail_off { s with parser := (s.parser.parse w.env chunk true).1 } _ _
+        (by simpa [Stream.shouldBailOutFor] using hoff)]
+      exact ⟨by simpa [Stream.emitted, Stream.disp] using a, rfl⟩
+  | ok consumed =>
+    right
+    simp only [hpr] at h ⊢
+    simp only [Stream.emitted, setDisp_disp]
+    unfold Disp.finish at *
+    cases hfl : Disp.flushRemaining (Stream.disp { s with parser := (s.parser.parse w.env chunk true).1 }) chunk chunk.length with
+    | error e' =>
+      -- impossible: rcs ≤ chunk.length
+      exfalso
+      obtain ⟨a, b, c⟩ := hD
+      unfold Disp.flushRemaining at hfl
+      simp only [Stream.disp, c, if_true] at hfl
+      have : checkedSlice chunk ⟨(s.parser.parse w.env chunk true).1.x.sink.rcs, chunk.length⟩
+          = some (chunk.drop (s.parser.parse w.env chunk true).1.x.sink.rcs) := by
+        unfold checkedSlice; simp [b, slice]
+      rw [this] at hfl
+      simp at hfl
+    | ok d =>
+      obtain ⟨f1, _, _, _⟩ := flushRemaining_spec (d := Stream.disp { s with parser := (s.parser.parse w.env chunk true).1 }) hD hfl
+      simp only [hfl, DRes.ofExcept, DRes.bind] at h ⊢
+      have := hobs.handleEnd_empty d.ctl
+      cases he : (w.ctl.handleEnd d.ctl).2.2 with
+      | none => simp [he] at h
+      | some e' =>
+        simp only [he]
+        refine ⟨?_, rfl⟩
+        simp only [sinkBytes_append, sinkBytes_chunks, this, List.append_nil, f1, List.take_length]
+        rfl
+
+end LolHtml.Model
+
+
+namespace LolHtml.Model
+variable {γ : Type} {w : World γ}
+
+theorem Stream.bail_cfg (s : Stream γ) (e : Err) (sl : List Bytes) : (s.bail w e sl).cfg = s.cfg := by
+  unfold Stream.bail; split <;> rfl
+
+theorem Stream.keepTail_cfg (s : Stream γ) (data chunk : Bytes) (c : Nat) : (s.keepTail w data chunk c).1.cfg = s.cfg := by
+  unfold Stream.keepTail
+  split
+  · split
+    · split <;> rfl
+    · dsimp only
+      split
+      · rfl
+      · rw [Stream.bail_cfg]
+  · rfl
+
+/-- the settings never change -/
+theorem Stream.write_cfg (s : Stream γ) (data : Bytes) : (s.write w data).1.cfg = s.cfg := by
+  unfold Stream.write
+  cases hcf : s.chunkFor w data with
+  | inl s' =>
+    obtain ⟨_, hs'⟩ := Stream.chunkFor_inl hcf
+    subst hs'
+    rw [Stream.bail_cfg]
+  | inr sc =>
+    obtain ⟨s1, chunk⟩ := sc
+    obtain ⟨_, _, _, c4, _⟩ := Stream.chunkFor_inr hcf
+    dsimp only
+    split
+    · rw [Stream.bail_cfg]; exact c4
+    · split
+      · exact c4
+      · rw [Stream.keepTail_cfg]; exact c4
 
 end LolHtml.Model
